@@ -384,6 +384,13 @@ pub open spec fn to_string_ok(buf: Seq<u8>, start: int, s: Seq<char>, i: int) ->
 /// big-endian 16-bit number at offset `at`
 pub open spec fn be16(buf: Seq<u8>, at: int) -> u16 { (buf[at] as u16 * 256 + buf[at + 1] as u16) as u16 }
 
+/// the big-endian number read from a sub-slice is the one read from the datagram at the sub-slice's offset
+pub broadcast proof fn lemma_be16_subrange(buf: Seq<u8>, a: int, b: int)
+    requires 0 <= a, a + 2 <= b <= buf.len(),
+    ensures #[trigger] be16(buf.subrange(a, b), 0) == be16(buf, a),
+{
+}
+
 /// the first NUL at or after `start` is unique, and so is the decoded string
 pub proof fn lemma_to_string_unique(buf: Seq<u8>, start: int, s1: Seq<char>, i1: int, s2: Seq<char>, i2: int)
     requires to_string_ok(buf, start, s1, i1), to_string_ok(buf, start, s2, i2),
